@@ -187,7 +187,17 @@ def gen_family(bins, fam, tier, d, mode="dev"):
         def one(i):
             t = os.path.join(d, "%s-%s-%d.ndjson" % (fam["name"], mode, i))
             s = os.path.join(d, "%s-%s-%d.scripts" % (fam["name"], mode, i))
-            vlib.pvh(bins[mode], [fam["gen"], "--tier", tier, "--seed", seed, "--shard", i, "--shards", shards, "--out", t, "--scripts", s] + fam["extra"])
+            try:
+                vlib.pvh(bins[mode], [fam["gen"], "--tier", tier, "--seed", seed, "--shard", i, "--shards", shards, "--out", t, "--scripts", s] + fam["extra"])
+            except vlib.HarnessCrash as e:
+                # the process died inside the code under test (e.g. stack overflow): the completed runs are on disk;
+                # the case after the last completed one is recorded as a run that ends with an `abort` line
+                done = sum(1 for _ in open(s)) if os.path.exists(s) else 0
+                with open(t, "a") as f:
+                    f.write(json.dumps({"e": "reset", "run": 900000 + i, "fam": fam["name"], "R": 1, "M": 0, "sei": 0, "seik": "zero",
+                                        "disc": "wake", "mode": mode, "ok": 1, "recon": 0}) + "\n")
+                    f.write(json.dumps({"e": "abort", "why": " | ".join(e.args[0]) if e.args else "", "shard": i, "completed": done}) + "\n")
+                    f.write(json.dumps({"e": "end"}) + "\n")
             return (t, s)
         with concurrent.futures.ThreadPoolExecutor(max_workers=8) as ex:
             for t, s in ex.map(one, range(shards)):
